@@ -176,11 +176,13 @@ func Name(id uint16) string {
 
 // Curves (TLS named groups).
 const (
-	P256           uint16 = 23
-	P384           uint16 = 24
-	P521           uint16 = 25
-	X25519         uint16 = 29
-	X25519MLKEM768 uint16 = 4588
+	P256               uint16 = 23
+	P384               uint16 = 24
+	P521               uint16 = 25
+	X25519             uint16 = 29
+	X25519MLKEM768     uint16 = 4588
+	SecP256r1MLKEM768  uint16 = 4587
+	SecP384r1MLKEM1024 uint16 = 4589
 )
 
 // DefaultCurves is the documented default of Config.CurvePreferences ("If
